@@ -9,6 +9,7 @@ package absnfs
 import (
 	"bytes"
 	"context"
+	"encoding/binary"
 	"fmt"
 	"io"
 )
@@ -133,6 +134,16 @@ func (h *NFSProcedureHandler) HandleCall(call *RPCCall, body io.Reader, authCtx 
 			result, err = h.handleMountCall(call, body, reply, authCtx)
 		case NFS_PROGRAM:
 			result, err = h.handleNFSCall(call, body, reply, authCtx)
+			// The procedure handlers report undecodable arguments by putting
+			// GARBAGE_ARGS (4) where the NFS status goes. 4 is not a member of
+			// nfsstat3; on the wire "cannot decode the arguments" is the RPC-level
+			// accept_stat GARBAGE_ARGS with no results (RFC 1831).
+			if err == nil && result != nil {
+				if data, ok := result.Data.([]byte); ok && len(data) >= 4 && binary.BigEndian.Uint32(data[:4]) == GARBAGE_ARGS {
+					result.AcceptStatus = GARBAGE_ARGS
+					result.Data = nil
+				}
+			}
 		default:
 			reply.AcceptStatus = PROG_UNAVAIL
 			select {
